@@ -775,6 +775,48 @@ def foreign_schema_stream(ctx):
                     "declares component values as default", "foreign/declared-default")
     except Exception as e:  # noqa
         fs.case({"module": "site schema", "error": repr(e)[:100]})
+    # what a record refuses or stores does not depend on what was rendered or stored before: a required value that is
+    # missing is refused every time (not only at the first rendering of the class); a long decimal is stored with all
+    # its digits also after floats went through decimal fields; the interpreter's decimal context is left alone
+    import decimal as _decimal
+    try:
+        prec0 = _decimal.getcontext().prec
+        RecQ = Record.build(F.ConstantField(name="type", default="Q"), F.TextField(name="must", required=True),
+                            F.TextField(name="opt"), F.ComponentField(Component.build(F.TextField(name="a", required=True),
+                                                                                      F.TextField(name="b")), name="c"))
+        outcomes = []
+        for step in ("first", "again", "complete", "after-complete", "component", "component-again"):
+            try:
+                if step == "complete":
+                    RecQ(must="a", c=["x", "y"]).to_dict()
+                    RecQ(must="a", c=["x", "y"]).to_astm()
+                    continue
+                if step.startswith("component"):
+                    RecQ(must="a", c=[None, "y"]).to_dict()
+                else:
+                    (RecQ(opt="x").to_dict if step != "again" else RecQ(opt="x").to_astm)()
+                outcomes.append((step, "rendered"))
+            except ValueError:
+                outcomes.append((step, "refused"))
+        fs.case({"module": "site schema", "letter": "Q", "required": "must, c.a"})
+        if any(o != "refused" for _s, o in outcomes):
+            fs.fail({"module": "site schema", "outcomes": outcomes},
+                    "a record with a required value missing is refused at one rendering and rendered at another: %r" % (outcomes,),
+                    "foreign/required-check")
+        big = _decimal.Decimal("1234567890.123456789012")
+        d1 = Rec(dec=big).to_dict()
+        for fl in (0.25, 3.14, 1e-07):
+            Rec(dec=fl).to_dict()
+        d2 = Rec(dec=big).to_dict()
+        fs.case({"module": "site schema", "letter": "Z", "decimal": str(big)})
+        if d1 != d2 or _decimal.getcontext().prec != prec0:
+            fs.fail({"module": "site schema", "before": repr(d1.get("dec")), "after": repr(d2.get("dec")),
+                     "context_precision": [prec0, _decimal.getcontext().prec]},
+                    "the same decimal is stored differently after floats were assigned to decimal fields (or the "
+                    "interpreter's decimal context was changed)", "foreign/decimal-context")
+            _decimal.getcontext().prec = prec0
+    except Exception as e:  # noqa
+        fs.case({"module": "site schema", "error": repr(e)[:100]})
     after = snapshot()
     for key in before:
         fs.case({"module": key[0], "letter": key[1], "input": before[key][0]})
